@@ -28,6 +28,7 @@ def int? (s : String) : Option Int :=
   `auth.scram.am authid cnonce snonce salt iters cbind`
   `auth.scram.proof sp authid cnonce snonce salt iters cbind`   (sp = KDF output, given)
   `auth.scram.welcome sp am alleged` `auth.scram.verify storedkey am proof`
+  `auth.xor a b`
   `auth.cryptosign.data challengeText cid|none none|tls-unique|other`
   `auth.cryptosign.answer sig challengeText cid|none binding` -/
 def handle : List String → Option String
@@ -94,6 +95,9 @@ def handle : List String → Option String
   | ["auth.scram.verify", sk, am, pr] => do
       let sk ← Hex.decode sk; let am ← Hex.decode am; let pr ← Hex.decode pr
       pure (boolStr (Scram.serverVerify Scram.sha256Prims sk am pr))
+  | ["auth.xor", a, b] => do
+      let a ← Hex.decode a; let b ← Hex.decode b
+      pure (exc Hex.render (Auth.xor a b))
   | ["auth.cryptosign.data", ch, cid, b] => do
       let ch ← Hex.decode ch; let cid ← optBytes cid; let b ← binding b
       pure (exc Hex.render (Cryptosign.format ch cid b))
